@@ -13,7 +13,7 @@ import (
 	"verif/harness/world"
 )
 
-var methodsC11 = []string{"GET", "POST", "PURGE", "OPTIONS"}
+var methodsC11 = []string{"GET", "POST", "PURGE", "OPTIONS", "CONNECT"}
 
 func init() {
 	register(&Prop{
@@ -127,67 +127,76 @@ func (rr *routingRun) checkUnserved(p world.Probe, rawPath, where string) {
 	}
 	cfg := rr.w.ModelCfg()
 	res.Checks++
-	var sv model.Served
-	if p.Path == "*" {
-		sv = rr.set.Serve(cfg, p.Method, p.Host, p.Path, p.Path, model.MatchOpts{})
-	} else {
-		eff, ok := rr.effective(p.Method, p.Host, p.Path, rawPath)
-		if !ok {
-			res.inc("probes_skipped_routing_deviation_is_c08")
-			return
-		}
-		first := rr.set.Dispatch(cfg, p.Method, p.Host, matchPath, p.Path, eff, model.MatchOpts{})
-		if first.Kind == model.KRoute || first.Kind == model.KRedirect {
-			sv = first
+	// expected computes the reference answer. connectCounts=false is the property's reading: a CONNECT route that matches
+	// only by ignoring a trailing slash does not serve the path (CONNECT requests never get a trailing-slash action).
+	// connectCounts=true is what fox's Allow scan does (known finding C11/allow-lists-connect-through-ignored-slash).
+	expected := func(connectCounts bool) (sv model.Served, ok bool) {
+		if p.Path == "*" {
+			sv = rr.set.Serve(cfg, p.Method, p.Host, p.Path, p.Path, model.MatchOpts{})
 		} else {
-			// recompute the Allow set from per-method effective answers
-			serves := func(mm string) (bool, bool) {
-				e, ok := rr.effective(mm, p.Host, p.Path, rawPath)
-				if !ok {
-					return false, false
-				}
-				return e.Route != nil && (!e.TSR || e.Route.IgnoreTS), true
+			eff, ok := rr.effective(p.Method, p.Host, p.Path, rawPath)
+			if !ok {
+				return sv, false
 			}
-			var allow []string
-			sv = model.Served{Kind: model.KNoRoute}
-			if p.Method == "OPTIONS" && cfg.AutoOptions {
-				for _, mm := range rr.set.Methods() {
-					s, ok := serves(mm)
+			first := rr.set.Dispatch(cfg, p.Method, p.Host, matchPath, p.Path, eff, model.MatchOpts{})
+			if first.Kind == model.KRoute || first.Kind == model.KRedirect {
+				sv = first
+			} else {
+				// recompute the Allow set from per-method effective answers
+				serves := func(mm string) (bool, bool) {
+					e, ok := rr.effective(mm, p.Host, p.Path, rawPath)
 					if !ok {
-						res.inc("probes_skipped_routing_deviation_is_c08")
-						return
+						return false, false
 					}
-					if s {
-						allow = append(allow, mm)
-					}
+					// a CONNECT request is never served through a trailing-slash action (C08), so a CONNECT route that matches
+					// only by ignoring the slash does not serve this path
+					return e.Route != nil && (!e.TSR || (e.Route.IgnoreTS && (mm != "CONNECT" || connectCounts))), true
 				}
-				if len(allow) > 0 {
-					allow = appendUnique(allow, "OPTIONS")
-					sv = model.Served{Kind: model.KOptions, Allow: allow}
-				}
-			} else if cfg.NoMethod {
-				for _, mm := range rr.set.Methods() {
-					if mm == p.Method {
-						continue
+				var allow []string
+				sv = model.Served{Kind: model.KNoRoute}
+				if p.Method == "OPTIONS" && cfg.AutoOptions {
+					for _, mm := range rr.set.Methods() {
+						s, ok := serves(mm)
+						if !ok {
+							return sv, false
+						}
+						if s {
+							allow = append(allow, mm)
+						}
 					}
-					s, ok := serves(mm)
-					if !ok {
-						res.inc("probes_skipped_routing_deviation_is_c08")
-						return
-					}
-					if s {
-						allow = append(allow, mm)
-					}
-				}
-				if len(allow) > 0 {
-					if cfg.AutoOptions {
+					if len(allow) > 0 {
 						allow = appendUnique(allow, "OPTIONS")
+						sv = model.Served{Kind: model.KOptions, Allow: allow}
 					}
-					sv = model.Served{Kind: model.KNoMethod, Allow: allow}
+				} else if cfg.NoMethod {
+					for _, mm := range rr.set.Methods() {
+						if mm == p.Method {
+							continue
+						}
+						s, ok := serves(mm)
+						if !ok {
+							return sv, false
+						}
+						if s {
+							allow = append(allow, mm)
+						}
+					}
+					if len(allow) > 0 {
+						if cfg.AutoOptions {
+							allow = appendUnique(allow, "OPTIONS")
+						}
+						sv = model.Served{Kind: model.KNoMethod, Allow: allow}
+					}
 				}
+				sort.Strings(sv.Allow)
 			}
-			sort.Strings(sv.Allow)
 		}
+		return sv, true
+	}
+	sv, ok := expected(false)
+	if !ok {
+		res.inc("probes_skipped_routing_deviation_is_c08")
+		return
 	}
 	obs := rr.w.Serve(p, rawPath, "", nil)
 	if obs.Panic != nil {
@@ -206,6 +215,16 @@ func (rr *routingRun) checkUnserved(p world.Probe, rawPath, where string) {
 			rs = append(rs, fmt.Sprintf("%s %s%s", r.Method, r.Pattern, o))
 		}
 		return fmt.Sprintf("%s: %s %s%s (escaped form %q) with options %s answered by %s (status %d, Allow %v); expected %s (Allow %v); routes: %s", where, p.Method, p.Host, p.Path, rawPath, rr.cfg, obs.Kind, obs.Status, obs.Allow, sv.Kind, sv.Allow, strings.Join(rs, ", "))
+	}
+	if obs.Kind != sv.Kind || strings.Join(obs.Allow, ",") != strings.Join(sv.Allow, ",") {
+		if alt, ok := expected(true); ok && (alt.Kind != sv.Kind || strings.Join(alt.Allow, ",") != strings.Join(sv.Allow, ",")) &&
+			obs.Kind == alt.Kind && strings.Join(obs.Allow, ",") == strings.Join(alt.Allow, ",") {
+			res.known("C11/allow-lists-connect-through-ignored-slash", describe())
+			if res.failed() {
+				return
+			}
+			sv = alt // scope and context are still checked against the answer fox gives
+		}
 	}
 	if sv.Kind == model.KRoute || sv.Kind == model.KRedirect {
 		if obs.Kind != sv.Kind {
